@@ -311,7 +311,7 @@ def concurrent_pairs(tier):
                 continue
             out.append((POP, '%s %s' % (A[ma], ca), '%s %s' % (B[mb], cb), 1))
     if tier == 'thorough':
-        out.append((POP, 'set "m" row 0', 'hue 240 set "m" column 1', 2))
+        out.append((POP, 'duration 1 on "a"', 'duration 2 off "a"', 2))        # two preemptions: the shortest command path
     return out
 
 
